@@ -484,7 +484,12 @@ func (p *parser) resetInsertionMode() {
 			// TODO: remove this divergence from the HTML5 spec.
 			//
 			// See https://bugs.chromium.org/p/chromium/issues/detail?id=829668
-			p.im = inHeadIM
+			if last {
+				// Fragment case: no head element is on the stack of open elements.
+				p.im = inBodyIM
+			} else {
+				p.im = inHeadIM
+			}
 		case a.Body:
 			p.im = inBodyIM
 		case a.Frameset:
